@@ -38,10 +38,32 @@ StateDiff(a, b) ==
 \cup (IF a.classes = b.classes THEN {} ELSE {"classes"})
 \cup (IF a.ctraits = b.ctraits THEN {} ELSE {"ctraits"})
 
+\* Generations are opaque to clients: their magnitude is not part of the
+\* documented meaning (C10 states what must and must not move them).  A step
+\* that differs from Apply only in how far a generation moved is reported as
+\* "rpgen" / "consgen" / "bodygen", which only the C10 monitors judge.
+HasKey(b, k) == k \in DOMAIN b
+BodyNoGen(op, b) ==
+  IF ~HasKey(b, "nobody") /\ op \in {"rp_create", "rp_update", "rp_get", "inv_list", "inv_get", "inv_post", "inv_put",
+                                        "inv_put_all", "rp_usages", "agg_get", "agg_put", "rp_traits_get", "rp_traits_put"}
+     /\ HasKey(b, "gen")
+  THEN [b EXCEPT !.gen = 0]
+  ELSE IF op = "rp_allocs" /\ HasKey(b, "allocs")
+  THEN [b EXCEPT !.gen = 0, !.allocs = [c \in DOMAIN @ |-> [@[c] EXCEPT !.cgen = IF @ = -1 THEN -1 ELSE 0]]]
+  ELSE IF op = "alloc_get" /\ HasKey(b, "allocs")
+  THEN [b EXCEPT !.cgen = IF @ = -1 THEN -1 ELSE 0, !.allocs = [p \in DOMAIN @ |-> [@[p] EXCEPT !.gen = 0]]]
+  ELSE b
+
 RespDiff(a, b) ==
      (IF a.status = b.status THEN {} ELSE {"status"})
 \cup (IF a.code = b.code THEN {} ELSE {"code"})
 \cup (IF a.body = b.body THEN {} ELSE {"body"})
+
+RespDiffOp(op, a, b) ==
+     (IF a.status = b.status THEN {} ELSE {"status"})
+\cup (IF a.code = b.code THEN {} ELSE {"code"})
+\cup (IF a.body = b.body THEN {}
+      ELSE IF a.status = b.status /\ BodyNoGen(op, a.body) = BodyNoGen(op, b.body) THEN {"bodygen"} ELSE {"body"})
 
 Init == i = 1 /\ s = IF Len(Log) = 0 THEN EmptyState ELSE NormState(Log[1].pre)
 
@@ -52,7 +74,7 @@ Step ==
          post == NormState(ln.post)
          exp  == Apply(pre, ln.req)
          chain == IF ln.reset THEN {} ELSE IF pre = s THEN {} ELSE {"chain"}
-         diff == StateDiff(exp.s, post) \cup RespDiff(exp.resp, ln.resp) \cup chain
+         diff == StateDiff(exp.s, post) \cup RespDiffOp(ln.req.op, exp.resp, ln.resp) \cup chain
          mon  == StepMonitors(pre, ln.req, ln.resp, post, ln.reset)
      IN /\ PrintT(<<"PV", ln.id, diff, mon, exp.resp.status, exp.resp.code>>)
         /\ (diff \cap {"body"} # {} => PrintT(<<"PVBODY", ln.id, exp.resp.body>>))
